@@ -76,14 +76,27 @@ pub struct Ctx {
     pub violations: Mutex<Vec<Violation>>,
     pub known_hits: Mutex<BTreeMap<String, (usize, String)>>,
     pub evaluations: AtomicUsize,
-    pub nontrivial: Mutex<BTreeSet<u64>>,
+    pub nontrivial_shards: Vec<Mutex<std::collections::HashSet<u64>>>,
     pub samples: Mutex<Vec<J>>,
-    pub outcomes: Mutex<BTreeMap<String, usize>>,
+    pub outcome_shards: Vec<Mutex<BTreeMap<String, usize>>>,
     pub extra: Mutex<serde_json::Map<String, J>>,
     pub assumptions: Mutex<Vec<String>>,
     pub caps: Mutex<Vec<String>>,
     pub machinery_errors: Mutex<Vec<String>>,
     pub replay_mode: bool,
+}
+
+pub const SHARDS: usize = 64;
+
+thread_local! {
+    static SHARD: usize = {
+        static NEXT: AtomicUsize = AtomicUsize::new(0);
+        NEXT.fetch_add(1, Ordering::Relaxed) % SHARDS
+    };
+}
+
+pub fn shard() -> usize {
+    SHARD.with(|s| *s)
 }
 
 pub fn fnv(s: &str) -> u64 {
@@ -107,9 +120,9 @@ impl Ctx {
             violations: Mutex::new(vec![]),
             known_hits: Mutex::new(BTreeMap::new()),
             evaluations: AtomicUsize::new(0),
-            nontrivial: Mutex::new(BTreeSet::new()),
+            nontrivial_shards: (0..SHARDS).map(|_| Mutex::new(std::collections::HashSet::new())).collect(),
             samples: Mutex::new(vec![]),
-            outcomes: Mutex::new(BTreeMap::new()),
+            outcome_shards: (0..SHARDS).map(|_| Mutex::new(BTreeMap::new())).collect(),
             extra: Mutex::new(serde_json::Map::new()),
             assumptions: Mutex::new(vec![]),
             caps: Mutex::new(vec![]),
@@ -128,26 +141,47 @@ impl Ctx {
 
     /// Record a distinct non-trivial case by its canonical key.
     pub fn nontrivial(&self, key: &str) {
-        self.nontrivial.lock().unwrap().insert(fnv(key));
+        let h = fnv(key);
+        // sharded by key so that the same key always lands in the same set
+        self.nontrivial_shards[(h % SHARDS as u64) as usize].lock().unwrap().insert(h);
     }
 
     pub fn nontrivial_many(&self, keys: impl IntoIterator<Item = u64>) {
-        let mut g = self.nontrivial.lock().unwrap();
         for k in keys {
-            g.insert(k);
+            self.nontrivial_shards[(k % SHARDS as u64) as usize].lock().unwrap().insert(k);
         }
     }
 
+    pub fn nontrivial_len(&self) -> usize {
+        self.nontrivial_shards.iter().map(|s| s.lock().unwrap().len()).sum()
+    }
+
     pub fn outcome(&self, tag: &str) {
-        *self.outcomes.lock().unwrap().entry(tag.to_string()).or_insert(0) += 1;
+        self.outcome_n(tag, 1);
     }
 
     pub fn outcome_n(&self, tag: &str, n: usize) {
-        *self.outcomes.lock().unwrap().entry(tag.to_string()).or_insert(0) += n;
+        let mut g = self.outcome_shards[shard()].lock().unwrap();
+        match g.get_mut(tag) {
+            Some(v) => *v += n,
+            None => {
+                g.insert(tag.to_string(), n);
+            }
+        }
     }
 
     pub fn outcome_count(&self, tag: &str) -> usize {
-        self.outcomes.lock().unwrap().get(tag).copied().unwrap_or(0)
+        self.outcome_shards.iter().map(|s| s.lock().unwrap().get(tag).copied().unwrap_or(0)).sum()
+    }
+
+    pub fn outcomes_merged(&self) -> BTreeMap<String, usize> {
+        let mut m = BTreeMap::new();
+        for s in &self.outcome_shards {
+            for (k, v) in s.lock().unwrap().iter() {
+                *m.entry(k.clone()).or_insert(0) += v;
+            }
+        }
+        m
     }
 
     pub fn sample(&self, s: J) {
@@ -207,6 +241,101 @@ impl Ctx {
             }
         }
         self.violations.lock().unwrap().push(v);
+    }
+
+    /// Forget everything recorded so far (used by forked workers, which report only their own share).
+    pub fn clear_accumulators(&self) {
+        self.violations.lock().unwrap().clear();
+        self.known_hits.lock().unwrap().clear();
+        self.evaluations.store(0, Ordering::Relaxed);
+        for s in &self.nontrivial_shards {
+            s.lock().unwrap().clear();
+        }
+        for s in &self.outcome_shards {
+            s.lock().unwrap().clear();
+        }
+        self.samples.lock().unwrap().clear();
+        self.extra.lock().unwrap().clear();
+        self.machinery_errors.lock().unwrap().clear();
+        self.caps.lock().unwrap().clear();
+    }
+
+    pub fn export_delta(&self) -> String {
+        let viols: Vec<J> = self
+            .violations
+            .lock()
+            .unwrap()
+            .iter()
+            .map(|v| json!({"kind": v.kind, "class": v.class, "input": v.input, "expected": v.expected, "observed": v.observed, "case": v.case}))
+            .collect();
+        let hits: Vec<J> = self.known_hits.lock().unwrap().iter().map(|(k, v)| json!([k, v.0, v.1])).collect();
+        let mut nt: Vec<u64> = vec![];
+        for s in &self.nontrivial_shards {
+            nt.extend(s.lock().unwrap().iter().copied());
+        }
+        json!({
+            "violations": viols,
+            "known_hits": hits,
+            "evaluations": self.evaluations.load(Ordering::Relaxed),
+            "nontrivial": nt,
+            "outcomes": self.outcomes_merged(),
+            "samples": self.samples.lock().unwrap().clone(),
+            "extra_add": J::Object(self.extra.lock().unwrap().clone()),
+            "machinery_errors": self.machinery_errors.lock().unwrap().clone(),
+            "caps": self.caps.lock().unwrap().clone(),
+        })
+        .to_string()
+    }
+
+    pub fn merge_delta(&self, text: &str) -> bool {
+        let Ok(j) = serde_json::from_str::<J>(text) else { return false };
+        let s = |v: &J| v.as_str().unwrap_or("").to_string();
+        if let Some(a) = j["violations"].as_array() {
+            let mut g = self.violations.lock().unwrap();
+            for v in a {
+                g.push(Violation { kind: s(&v["kind"]), class: s(&v["class"]), input: s(&v["input"]), expected: s(&v["expected"]), observed: s(&v["observed"]), case: v["case"].clone() });
+            }
+        }
+        if let Some(a) = j["known_hits"].as_array() {
+            let mut g = self.known_hits.lock().unwrap();
+            for h in a {
+                let e = g.entry(s(&h[0])).or_insert((0, s(&h[2])));
+                e.0 += h[1].as_u64().unwrap_or(0) as usize;
+            }
+        }
+        self.count(j["evaluations"].as_u64().unwrap_or(0) as usize);
+        if let Some(a) = j["nontrivial"].as_array() {
+            self.nontrivial_many(a.iter().filter_map(|x| x.as_u64()));
+        }
+        if let Some(o) = j["outcomes"].as_object() {
+            for (k, v) in o {
+                self.outcome_n(k, v.as_u64().unwrap_or(0) as usize);
+            }
+        }
+        if let Some(a) = j["samples"].as_array() {
+            for x in a {
+                self.sample(x.clone());
+            }
+        }
+        if let Some(o) = j["extra_add"].as_object() {
+            for (k, v) in o {
+                match v.as_u64() {
+                    Some(n) => self.add(k, n),
+                    None => self.set(k, v.clone()),
+                }
+            }
+        }
+        if let Some(a) = j["machinery_errors"].as_array() {
+            for x in a {
+                self.machinery_errors.lock().unwrap().push(s(x));
+            }
+        }
+        if let Some(a) = j["caps"].as_array() {
+            for x in a {
+                self.caps.lock().unwrap().push(s(x));
+            }
+        }
+        true
     }
 
     pub fn violation_count(&self) -> usize {
@@ -339,7 +468,7 @@ pub fn finish(ctx: &Ctx, level: &str, rule: &str, exhaustive: bool, states: Opti
     let mut cov = serde_json::Map::new();
     let evals = ctx.evaluations.load(Ordering::Relaxed);
     cov.insert("evaluations".into(), json!(evals));
-    cov.insert("distinct_nontrivial".into(), json!(ctx.nontrivial.lock().unwrap().len()));
+    cov.insert("distinct_nontrivial".into(), json!(ctx.nontrivial_len()));
     cov.insert("rule".into(), json!(rule));
     cov.insert("samples".into(), J::Array(ctx.samples.lock().unwrap().clone()));
     let caps = ctx.caps.lock().unwrap().clone();
@@ -354,7 +483,7 @@ pub fn finish(ctx: &Ctx, level: &str, rule: &str, exhaustive: bool, states: Opti
     }
     cov.insert(
         "outcomes".into(),
-        J::Object(ctx.outcomes.lock().unwrap().iter().map(|(k, v)| (k.clone(), json!(v))).collect()),
+        J::Object(ctx.outcomes_merged().iter().map(|(k, v)| (k.clone(), json!(v))).collect()),
     );
     cov.insert(
         "known_findings_hit".into(),
@@ -384,7 +513,7 @@ pub fn finish(ctx: &Ctx, level: &str, rule: &str, exhaustive: bool, states: Opti
         ctx.prop,
         ctx.tier.name(),
         evals,
-        ctx.nontrivial.lock().unwrap().len(),
+        ctx.nontrivial_len(),
         violations.len(),
         hits.values().map(|v| v.0).sum::<usize>(),
         ctx.elapsed()
@@ -469,7 +598,7 @@ pub fn par_for(n: usize, f: impl Fn(usize) + Sync) {
                         }
                         f(i);
                         since_clear += 1;
-                        if since_clear >= 2000 {
+                        if since_clear >= 20 {
                             blots_core::functions::clear_function_call_stats();
                             since_clear = 0;
                         }
@@ -479,6 +608,77 @@ pub fn par_for(n: usize, f: impl Fn(usize) + Sync) {
         }
     });
     blots_core::functions::clear_function_call_stats();
+}
+
+/// Process-parallel `for`: the index range is split over forked children, each of which runs its
+/// share on the calling thread and sends what it recorded in `ctx` back over a pipe. Unlike threads,
+/// processes do not contend for blots-core's global call-statistics mutex, and a child that aborts
+/// (stack overflow, allocation failure) is reported instead of taking the run down.
+pub fn par_for_ctx(ctx: &Ctx, n: usize, f: impl Fn(usize)) {
+    let workers = threads().min(n.max(1));
+    if workers <= 1 || std::env::var("VERIF_NOFORK").is_ok() {
+        for i in 0..n {
+            f(i);
+            if i % 20 == 0 {
+                blots_core::functions::clear_function_call_stats();
+            }
+        }
+        return;
+    }
+    use std::io::Read;
+    use std::os::fd::FromRawFd;
+    let mut children: Vec<(libc::pid_t, std::fs::File)> = vec![];
+    for k in 0..workers {
+        let mut fds = [0i32; 2];
+        if unsafe { libc::pipe(fds.as_mut_ptr()) } != 0 {
+            ctx.machinery_error("pipe() failed".into());
+            return;
+        }
+        let pid = unsafe { libc::fork() };
+        if pid < 0 {
+            ctx.machinery_error("fork() failed".into());
+            return;
+        }
+        if pid == 0 {
+            // child
+            unsafe { libc::close(fds[0]) };
+            for (_, file) in children.drain(..) {
+                std::mem::forget(file);
+            }
+            ctx.clear_accumulators();
+            let mut i = k;
+            let mut since = 0;
+            while i < n {
+                f(i);
+                i += workers;
+                since += 1;
+                if since >= 20 {
+                    blots_core::functions::clear_function_call_stats();
+                    since = 0;
+                }
+            }
+            let payload = ctx.export_delta();
+            let mut out = unsafe { std::fs::File::from_raw_fd(fds[1]) };
+            let _ = std::io::Write::write_all(&mut out, payload.as_bytes());
+            drop(out);
+            unsafe { libc::_exit(0) };
+        }
+        unsafe { libc::close(fds[1]) };
+        children.push((pid, unsafe { std::fs::File::from_raw_fd(fds[0]) }));
+    }
+    for (k, (pid, mut file)) in children.into_iter().enumerate() {
+        let mut text = String::new();
+        let _ = file.read_to_string(&mut text);
+        let mut status = 0i32;
+        unsafe { libc::waitpid(pid, &mut status, 0) };
+        let ok = libc::WIFEXITED(status) && libc::WEXITSTATUS(status) == 0;
+        if !ok || !ctx.merge_delta(&text) {
+            ctx.machinery_error(format!(
+                "worker process {} of {} ended abnormally (wait status {:#x}); its share of the cases is lost",
+                k, workers, status
+            ));
+        }
+    }
 }
 
 /// Parallel map preserving order.
@@ -542,6 +742,9 @@ pub struct Session {
     pub heap: Rc<RefCell<Heap>>,
     pub env: Rc<Environment>,
     pub outputs: IndexMap<String, SerializableValue>,
+    /// render results through SerializableValue (functions by emitted source) instead of the
+    /// structural canonical form
+    pub sv_mode: bool,
 }
 
 impl Session {
@@ -563,7 +766,7 @@ impl Session {
         }
         let rec = heap.borrow_mut().insert_record(map);
         env.insert("inputs".to_string(), rec);
-        Session { heap, env, outputs: IndexMap::new() }
+        Session { heap, env, outputs: IndexMap::new(), sv_mode: false }
     }
 
     /// Evaluate a whole source text the way `blots/src/main.rs::evaluate_source` does: statement
@@ -574,6 +777,17 @@ impl Session {
         match r {
             Ok(o) => o,
             Err(p) => Outcome::Panic(p),
+        }
+    }
+
+    fn render(&self, v: &Value) -> String {
+        if self.sv_mode {
+            match SerializableValue::from_value(v, &self.heap.borrow()) {
+                Ok(sv) => canon_sv(&sv),
+                Err(e) => format!("<unserializable: {}>", e),
+            }
+        } else {
+            canon_value(v, &self.heap.borrow())
         }
     }
 
@@ -591,7 +805,7 @@ impl Session {
             match inner.as_rule() {
                 Rule::expression => {
                     match evaluate_pairs(inner.into_inner(), Rc::clone(&self.heap), Rc::clone(&self.env), 0, source) {
-                        Ok(v) => last = Outcome::Ok(canon_value(&v, &self.heap.borrow())),
+                        Ok(v) => last = Outcome::Ok(self.render(&v)),
                         Err(e) => return Outcome::EvalError(e.message.clone()),
                     }
                 }
@@ -629,7 +843,7 @@ impl Session {
                         }
                     }
                     match result {
-                        Ok(v) => last = Outcome::Ok(canon_value(&v, &self.heap.borrow())),
+                        Ok(v) => last = Outcome::Ok(self.render(&v)),
                         Err(e) => return Outcome::EvalError(e.message.clone()),
                     }
                 }
@@ -768,11 +982,11 @@ pub fn canon_sv(v: &SerializableValue) -> String {
             "{{{}}}",
             r.iter().map(|(k, v)| format!("{:?}: {}", k, canon_sv(v))).collect::<Vec<_>>().join(", ")
         ),
-        SerializableValue::Lambda(l) => format!(
-            "fn({}) => {}",
-            l.args.iter().map(|a| a.to_string()).collect::<Vec<_>>().join(", "),
-            l.body
-        ),
+        // functions are compared by signature only: two emissions of equivalent functions may
+        // differ in redundant parentheses; their behaviour is compared by calling them
+        SerializableValue::Lambda(l) => {
+            format!("fn({})", l.args.iter().map(|a| a.to_string()).collect::<Vec<_>>().join(", "))
+        }
         SerializableValue::BuiltIn(n) => format!("builtin:{}", n),
     }
 }
